@@ -397,7 +397,14 @@ pub fn handshake(p: &Profile) -> BoxedStrategy<Handshake> {
         (100 - f) => Just(Handshake::Accept),
         f => prop_oneof![
             (0x80u8..0xA3).prop_map(Handshake::Reject),
-            prop::collection::vec(any::<u8>(), 1..8).prop_map(Handshake::Garbage),
+            // ("garbage" must not happen to be a CONNACK the client accepts - the broker model would
+            // not know about that session: a first byte 0x20 becomes 0x21, CONNACK with reserved flags)
+            prop::collection::vec(any::<u8>(), 1..8).prop_map(|mut b| {
+                if b[0] == 0x20 {
+                    b[0] = 0x21;
+                }
+                Handshake::Garbage(b)
+            }),
             Just(Handshake::Garbage(vec![0x20, 0x03, 0x00, 0x00, 0x05])),
             // well-framed success CONNACKs that the client rejects while reading the properties:
             // Receive Maximum 0, Maximum QoS 3 (with either session-present answer)
